@@ -10,8 +10,9 @@ CONSTANTS NAuth, NSess, MaxLen
 Pick(S) == RandomElement(S)
 Ascii == <<117, 115, 101, 114>>
 Names == { <<>>, <<120>>, Ascii, <<85, 115, 69, 114, 49>>, <<233, 224, 1046, 1103, 945>>, <<8364, 26085, 26412>>, <<128512, 97, 66560>>,
-           [i \in 1..64 |-> 97 + (i % 26)], <<65, 100, 109, 105, 110, 105, 115, 116, 114, 97, 116, 111, 114>> }
-AsciiNames == { <<>>, <<120>>, Ascii, <<85, 115, 69, 114, 49>>, [i \in 1..64 |-> 97 + (i % 26)] }
+           [i \in 1..64 |-> 97 + (i % 26)], <<65, 100, 109, 105, 110, 105, 115, 116, 114, 97, 116, 111, 114>>,
+           <<117, 115, 64, 99, 111, 46, 101, 120>>, <<64>> }      \* UPN form "us@co.ex", a lone "@"
+AsciiNames == { <<>>, <<120>>, Ascii, <<85, 115, 69, 114, 49>>, [i \in 1..64 |-> 97 + (i % 26)], <<117, 115, 64, 99, 111, 46, 101, 120>> }
 Passwords == { <<>>, <<112>>, <<112, 97, 115, 115, 119, 111, 114, 100>>, <<80, 228, 223, 223, 119, 246, 114, 116, 8364>>, <<128273, 128274, 49>>, [i \in 1..64 |-> 33 + (i % 90)] }
 Challenges == { <<0, 0, 0, 0, 0, 0, 0, 0>>, <<255, 255, 255, 255, 255, 255, 255, 255>>, <<1, 35, 69, 103, 137, 171, 205, 239>> }
 RandBytes(n) == [i \in 1..n |-> RandomElement(0..255)]
